@@ -42,7 +42,7 @@
 #include <stdarg.h>
 #include <limits.h>
 
-#define FX_MAXEV   8192
+#define FX_MAXEV   16384
 #define FX_MAXPIPE 12
 
 enum fx_evkind {
